@@ -206,11 +206,11 @@ func runC04(c *vlib.Ctx) {
 		}
 	}()
 	type job struct {
-		wi      int
-		n       int64
-		when    string
-		second  int64 // crash the recovery start-up at this write (0 = no second crash)
-		emptyMem bool // the death also left the store's next memtable file created but not yet sized (zero length)
+		wi       int
+		n        int64
+		when     string
+		second   int64 // crash the recovery start-up at this write (0 = no second crash)
+		emptyMem bool  // the death also left the store's next memtable file created but not yet sized (zero length)
 	}
 	var jobs []job
 	for wi, ref := range refs {
